@@ -278,6 +278,31 @@ pub fn sites(tier: Tier) -> Vec<Site> {
             })
     },
     {
+        // long stretches of ordinary text BETWEEN two carets / reserved characters: gaps around every power of two up to
+        // 2^17 (an offset or a length kept in 8 or 16 bits wraps in there)
+        let heads = ["^1", "^^", "<", "^", "a^v"];
+        let fills = ["x", "\u{e9}", "lorem ipsum "];
+        let tails = ["^2", "?", "^^", "done", "^"];
+        let mut gaps: Vec<usize> = vec![];
+        for k in [8u32, 12, 15, 16, 17] { for d in [-1i64, 0, 1] { gaps.push(((1i64 << k) + d) as usize); } }
+        let n = (heads.len() * fills.len() * tails.len() * gaps.len()) as u64;
+        Site::new("long-gaps", n,
+            "5 heads (a colour code, an escaped caret, a reserved character, a lone caret, an escape letter) + a filler of 2^k-1, 2^k, 2^k+1 bytes (k in {8, 12, 15, 16, 17}; three kinds of filler) + 5 tails: escape / unescape / strip / wire round trip as for every other string",
+            move |i, acc| {
+                let mut j = i as usize;
+                let t = tails[j % tails.len()]; j /= tails.len();
+                let g = gaps[j % gaps.len()]; j /= gaps.len();
+                let f = fills[j % fills.len()]; j /= fills.len();
+                let h = heads[j % heads.len()];
+                let mut s = String::with_capacity(g + 16);
+                s.push_str(h);
+                while s.len() - h.len() + f.len() <= g { s.push_str(f); }
+                while s.len() - h.len() < g { s.push('y'); }
+                s.push_str(t);
+                check(&s, i, "long-gaps", acc);
+            })
+    },
+    {
         // "any number of codes": one unit repeated around every power of two up to 2^17 (counters of 8 and 16 bits
         // wrap in there), with a different unit in front and behind
         let units = ["^1", "^1a", "a^2", "^^", "^^3", "^v", "|", "^", "^9^^", "\u{e9}^4"];
